@@ -26,6 +26,27 @@ def registry(i: int) -> dict:
     raise ValueError(i)
 
 
+OTHER_PATH = fsshim.ROOT + "p.other"  # same directory, same stem, another last dotted part
+_OTHER = None
+
+
+class SaveFailed(Exception):
+    pass
+
+
+def other_registry() -> dict:
+    return {42: Node(42, 17, "2.1", children={7: Child(7, 3, values={2: "bystander"})})}
+
+
+def other_file() -> bytes:
+    global _OTHER
+    if _OTHER is None:
+        kind, val, v = pers.save_nodes(other_registry())
+        assert kind == "ok", val
+        _OTHER = bytes(v.files[pers.PATH])
+    return _OTHER
+
+
 def crash_states(old: dict, new: dict, first: dict | None = None):
     """save(old) completes, then save(new); yield (class, description, files, ops) for every crash point of
     that last save. With `first`: an earlier process left `first` in the file, and ONE Persistence object over
@@ -54,13 +75,16 @@ def crash_states(old: dict, new: dict, first: dict | None = None):
         assert kind == "ok", val
         nodes.clear()
         nodes.update(copy.deepcopy(new))
+    # another gateway of the same process keeps its own registry in a sibling file of the same directory
+    vfs.files[OTHER_PATH] = bytearray(other_file())
     base = vfs.state()
     vfs.log.clear()
     if saver is None:
         kind, val, _ = pers.save_nodes(new, vfs)
     else:
         kind, val = pers.run(saver.save, vfs)
-    assert kind == "ok", val
+    if kind != "ok":
+        raise SaveFailed(f"{type(val).__name__}: {val}")
     ops = list(vfs.log)
     final = vfs.snapshot()
     st = fsshim.VFS.copy_state(base)
@@ -93,6 +117,11 @@ def classify(files: dict, old_c, new_c, empty_c) -> str | None:
     nodes: dict = {}
     from aiomysensors.persistence import Persistence
 
+    # after the restart the other gateway loads its file first: it was not being saved, so it must be intact
+    onodes: dict = {}
+    ok, ov = pers.run(Persistence(onodes, OTHER_PATH).load, vfs)
+    if ok != "ok" or canon_nodes(onodes) != canon_nodes(other_registry()):
+        return "bystander-file-damaged"
     kind, val = pers.run(Persistence(nodes, pers.PATH).load, vfs)
     if kind == "ok":
         c = canon_nodes(nodes)
@@ -118,7 +147,11 @@ def job(j):
     n = 0
     shape = None
     classes = set()
-    for cls, desc, files, ops in crash_states(old, new, first):
+    try:
+        states = list(crash_states(old, new, first))
+    except SaveFailed as err:
+        return 1, [(f"C15|save-failed-without-fault", f"old registry #{oi}, new registry #{ni}: the save itself failed on a healthy file system: {err}", {"old": oi, "new": ni, "first": fi})], None, []
+    for cls, desc, files, ops in states:
         n += 1
         classes.add(cls)
         shape = [(o[0], len(o[3]) if o[0] == "write" else (o[2] if o[0] == "open" else None)) for o in ops]
